@@ -541,7 +541,7 @@ fn tree_from_splits(n: usize, map: &BTreeMap<(usize, usize), usize>) -> TreeTrac
             let r = go(mid, hi, map, nodes);
             nodes[id] = Node::Join { left: l, right: r, stolen: false, swap: false, tail: vec![], restore: false };
         } else {
-            nodes[id] = Node::Leaf { pieces: vec![Piece { path: Path::AddLoop, len: hi - lo, restore: false }] };
+            nodes[id] = Node::Leaf { pieces: vec![Piece { path: Path::AddLoop, len: hi - lo, restore: false, reclone: false }] };
         }
         id
     }
